@@ -10,7 +10,9 @@ Operators == {"drop-last-byte", "drop-first-byte", "empty", "append-c2", "append
               "retag-utf8", "retag-printable", "retag-ia5", "retag-bmp", "retag-teletex", "retag-universal", "odd-length",
               "duplicate-node", "delete-node", "delete-first-child", "duplicate-first-child", "reverse-children", "swap-with-next",
               "all-ff", "min-negative", "max-positive", "all-zero", "inc-last-byte",
-              "mid-percent", "mid-space", "mid-control", "mid-colon", "mid-at", "mid-bracket", "drop-last-2", "drop-last-3", "keep-first-2"}
+              "mid-percent", "mid-space", "mid-control", "mid-colon", "mid-at", "mid-bracket", "drop-last-2", "drop-last-3", "keep-first-2",
+              "label-empty-first", "label-empty-mid", "label-empty-last", "label-drop-mid", "label-dup-mid", "label-long-mid", "label-two-chars", "label-nondigit"}
+LabelOperators == {"label-empty-first", "label-empty-mid", "label-empty-last", "label-drop-mid", "label-dup-mid", "label-long-mid", "label-two-chars", "label-nondigit"}
 NumberClasses == {"integer", "enumerated", "boolean"}
 Enabled(c, op) ==
    CASE op \in {"retag-utf8", "retag-printable", "retag-ia5", "retag-bmp", "retag-teletex", "retag-universal"} -> c \in StringClasses /\ op # ("retag-" \o c)
@@ -18,6 +20,7 @@ Enabled(c, op) ==
      [] op = "odd-length" -> c \in {"bmp", "universal"}
      [] op \in {"drop-last-2", "drop-last-3", "keep-first-2"} -> c \in {"oid", "octets", "integer"}
      [] op \in {"mid-percent", "mid-space", "mid-control", "mid-colon", "mid-at", "mid-bracket"} -> c \in {"ia5", "utf8", "printable", "context-prim"}
+     [] op \in LabelOperators -> c \in {"ia5", "utf8", "printable", "context-prim"}     \* dotted names: one label emptied / dropped / repeated / too long / ...
      [] op \in {"all-ff", "min-negative", "max-positive", "all-zero", "inc-last-byte"} -> c \in NumberClasses
      [] op \in {"delete-first-child", "duplicate-first-child", "reverse-children"} -> c \in {"sequence", "set", "context-cons"}
      [] op \in {"drop-last-byte", "drop-first-byte", "empty", "double-content"} -> c \notin {"sequence", "set", "context-cons", "null"}
